@@ -42,8 +42,12 @@ type m3 struct {
 	curRet    []mtype
 	closures  map[types.Object]*ast.FuncLit
 	classBusy map[types.Object]bool
-	heapObj   types.Object // (heap variant) the synthetic variable standing for the table
+	heapObj   types.Object              // (heap variant) the synthetic variable standing for the table
 	origins   map[types.Object]*origin4 // (fourth mode, JSON) where an alias came from
+	nn        map[string]int            // (phase 5) pointer terms known non-nil on the current path -> epoch
+	nnKill    map[string]int            // (phase 5) Coq variable name -> epoch of its latest rebinding
+	nnEpoch   int
+	aliasLive map[types.Object]aliasSrc5 // (phase 5, H7) variables holding internal storage of an abstract object
 }
 
 type loop3 struct {
@@ -132,7 +136,7 @@ func (c *m3) allNames() []string {
 // synthVar makes a fresh local variable of the given type (switch tags)
 func (c *m3) synthVar(at token.Pos, base string, t types.Type) *ast.Ident {
 	c.synthN++
-	id := &ast.Ident{NamePos: at, Name: fmt.Sprintf("%s%d_", base, c.synthN)}
+	id := &ast.Ident{NamePos: at, Name: fmt.Sprintf("%s%s%d_", synthMark, base, c.synthN)}
 	v := types.NewVar(at, c.p.tpkg, id.Name, t)
 	c.p.info.Defs[id] = v
 	return id
@@ -324,16 +328,22 @@ func (c *m3) sentinelOf(e ast.Expr) (string, bool) {
 
 // evalErrArgs evaluates (for panics only) the arguments of errors.New / fmt.Errorf
 func (c *m3) evalErrArgs(e ast.Expr) {
-	ce := e.(*ast.CallExpr)
+	c.fmtArgs(e.(*ast.CallExpr))
+}
+
+// fmtArgs: the operands of fmt.Sprintf / fmt.Errorf / errors.New / T(x) for an error type T.  Their text is not
+// modelled, but (phase 5) nothing is dropped: each operand must be of a type on which fmt calls no user
+// method (fmtOperandProblem) and is translated like any other expression, so a call inside it is translated
+// for its effect / panic or makes the function leave the subset.
+func (c *m3) fmtArgs(ce *ast.CallExpr) {
+	if ce.Ellipsis.IsValid() {
+		c.fail(ce, "fmt / errors call with a spread argument list")
+	}
 	for _, a := range ce.Args {
-		t := c.mtL(c.typeOf(a), a, true)
-		switch t.k {
-		case mN, mZ, mBool, mList:
-			if _, isCall := a.(*ast.CallExpr); isCall {
-				continue // e.g. err.Error(), hex.EncodeToString(..): text only
-			}
-			c.ex(a)
+		if why := fmtOperandProblem(c.typeOf(a), c.p.tpkg); why != "" {
+			c.fail(a, "`%s` is given %s: not translated (fmt would run code the translation does not see)", c.srcText(ce.Fun.Pos(), ce.Fun.End()), why)
 		}
+		c.ex(a)
 	}
 }
 
@@ -510,7 +520,9 @@ func (c *m3) derefVal(p ast.Expr) string {
 	if t.k != mOpt {
 		c.fail(p, "dereference of `%s`, which is not a pointer", c.srcText(p.Pos(), p.End()))
 	}
-	return c.bind("Go3.deref " + c.ex(p))
+	pt := c.ex(p)
+	c.nnMark(pt)
+	return c.bind("Go3.deref " + pt)
 }
 
 // structBase: the record denoted by x in x.f (x a struct value or a pointer to one)
@@ -546,7 +558,9 @@ func (c *m3) selector(e *ast.SelectorExpr) string {
 		rt := c.tyOf(e)
 		name := xt.abs + "_" + e.Sel.Name
 		c.needVar(name, c.coqT(xt)+" -> "+paren(c.coqT(rt)), e)
-		return fmt.Sprintf("(%s %s)", name, c.ex(e.X))
+		xterm := c.ex(e.X)
+		c.nilCheckAbsField5(e, xt, xterm)
+		return fmt.Sprintf("(%s %s)", name, xterm)
 	}
 	if len(sel.Index()) != 1 {
 		c.fail(e, "promoted field `%s`", c.srcText(e.Pos(), e.End()))
@@ -643,8 +657,11 @@ func (c *m3) compLitT(e *ast.CompositeLit, gt types.Type) string {
 				}
 				ft := c.mtL(st.Field(j).Type(), kv, true)
 				if ft.k == mUnit {
-					// a field of interface type (e.g. Curve): evaluated, not passed
+					// a field of interface type (e.g. Curve): not passed; it must be an expression without effect or panic
 					c.mtL(c.typeOf(kv.Value), kv.Value, true)
+					if why := c.notDiscardable5(kv.Value); why != "" {
+						c.fail(kv.Value, "the value of the field `%s` is dropped by the translation but %s", key, why)
+					}
 					continue
 				}
 				name += "_" + key
@@ -768,7 +785,7 @@ func (c *m3) shortCircuit(op token.Token, xe, ye ast.Expr) string {
 		return fmt.Sprintf("(orb %s %s)", x, y)
 	}
 	for _, l := range yb {
-		if strings.HasPrefix(l, "let ") && !strings.HasPrefix(l, "let t") {
+		if !bindsOnlyTemps(l) {
 			c.fail(ye, "right operand of %s changes a variable", op)
 		}
 	}
@@ -914,7 +931,7 @@ func (c *m3) bin3(at ast.Node, op token.Token, xe, ye ast.Expr, rt types.Type) s
 			yt := c.tyOf(ye)
 			y = c.ex(ye)
 			if yt.k == mZ {
-				c.note(at, "`%s`: signed shift count assumed non-negative (Go panics)", txt)
+				c.fail(ye, "shift by a count of a signed type that is not a constant (Go panics when it is negative; convert the count to an unsigned type)")
 				y = fmt.Sprintf("(Z.to_N %s)", y)
 			} else if yt.k != mN {
 				c.fail(ye, "non-integer shift count")
@@ -1363,10 +1380,15 @@ func (c *m3) builtin(e *ast.CallExpr, name string) string {
 			c.fail(e, "unsupported make")
 		}
 		n := e.Args[1]
-		if len(e.Args) == 3 && !c.nonNeg(e.Args[2]) {
-			ct := c.tyOf(e.Args[2])
-			c.pend = append(c.pend, fmt.Sprintf("do _ <- Go3.check_cap %s ;;", asZ(c.ex(e.Args[2]), ct)))
-			c.effect = true
+		if len(e.Args) == 3 {
+			if !trivialCap5(e.Args[2]) || !c.nonNeg(e.Args[2]) {
+				ct := c.tyOf(e.Args[2])
+				cx := c.ex(e.Args[2]) // always evaluated: its value is not observable, a panic inside it is
+				if !c.nonNeg(e.Args[2]) {
+					c.pend = append(c.pend, fmt.Sprintf("do _ <- Go3.check_cap %s ;;", asZ(cx, ct)))
+					c.effect = true
+				}
+			}
 		}
 		nt := c.tyOf(n)
 		if v, ok := c.constInt(n); ok && v == 0 {
@@ -1432,12 +1454,7 @@ func (c *m3) intrinsic(e *ast.CallExpr, path, name string) (string, mtype, bool)
 		a := args(2)
 		return fmt.Sprintf("(Go3.bytes_equal %s %s)", a[0], a[1]), rt(), true
 	case "fmt.Sprintf":
-		for _, a := range e.Args {
-			t := c.mtL(c.typeOf(a), a, true)
-			if t.k == mN || t.k == mZ || t.k == mBool || t.k == mList {
-				c.ex(a)
-			}
-		}
+		c.fmtArgs(e)
 		return "tt", mtype{k: mUnit}, true
 	}
 	return "", mtype{}, false
@@ -1453,7 +1470,9 @@ func (c *m3) absFuncCall(e *ast.CallExpr, name string, sig *types.Signature, rec
 	var recvT mtype
 	if recv != nil {
 		recvT = c.tyOf(recv)
-		parts = append(parts, c.ex(recv))
+		rterm := c.ex(recv)
+		c.nilCheckRecv(e, name, recv, recvT, rterm)
+		parts = append(parts, rterm)
 		tys = append(tys, paren(c.coqT(recvT)))
 	}
 	if sig.Params().Len() != len(e.Args) {
@@ -1489,6 +1508,7 @@ func (c *m3) absFuncCall(e *ast.CallExpr, name string, sig *types.Signature, rec
 		} else {
 			parts = append(parts, c.convTo(a, pt))
 		}
+		c.precondArg5(e, name, i, a, mtp, parts[len(parts)-1])
 		tys = append(tys, paren(c.coqT(mtp)))
 	}
 	var rts []string
@@ -1865,6 +1885,9 @@ func (c *m3) legacyCall(e *ast.CallExpr, key string, s *fsig) ([]string, []mtype
 func (c *m3) methodCall(e *ast.CallExpr, sel *ast.SelectorExpr, s *types.Selection) ([]string, []mtype) {
 	f := s.Obj().(*types.Func)
 	gsig := f.Type().(*types.Signature)
+	if len(s.Index()) != 1 {
+		c.fail(e, "call of the promoted method `%s` (through an embedded field)", c.srcText(e.Fun.Pos(), e.Fun.End()))
+	}
 	xt := c.typeOf(sel.X)
 	if curMode4 && isBigInt4(xt) {
 		return c.bigMethod(e, sel)
